@@ -97,6 +97,26 @@ CLAIMED = {
         technique='per-iteration abstract interpretation (Hoare-style) of '
                   'closure and atom builder with a membership-facts domain; '
                   'bounded equivalence of extracted guard summaries'),
+    'C03': dict(
+        partial=True,
+        text='The CTL* checker is analysed as a composition: the eliminator '
+             'of quantified subformulas (discovered from CTLS.modelcheck) '
+             'is interpreted per formula shape (18 shapes): atoms '
+             'unchanged, a quantified subformula replaced by an atomic '
+             'proposition named by the guarded fresh-name generator and '
+             'added to labels(s) of the same structure for exactly the '
+             'states returned for that formula, every other formula rebuilt '
+             'with the same class over its processed children in order; per '
+             'quantifier CTL is tried first, on TypeError E g is rewritten '
+             'to not A not g (valid by normal form) and A g goes to the LTL '
+             'checker; every result originates from CTL/LTL modelcheck on '
+             'the same cloned structure.',
+        ref='3-C03',
+        note='trusted: C01/C02 for the delegated checkers (exactness of '
+             'the answers is inherited, not decided here)',
+        technique='abstract interpretation of the eliminator per shape '
+                  '(structure preservation, provenance), guard dominance, '
+                  'rewrite validity by normal form'),
     'C05': dict(
         text='Every rewriter (get_equivalent_restricted_formula of each '
              'alphabet class of CTL*, LTL, CTL; 41 rule instances) is '
